@@ -69,6 +69,12 @@ def run(ctx) -> None:
     ctx.reuse("C07.broadcast", c04.pairing_family)
     ctx.reuse("C07.partition", c18.grouping)
     ctx.reuse("C07.partition", c18.sorting)
+    # split volumes add up to the requested volume, and every partition of every row is visited
+    from . import c06
+
+    ctx.reuse("C07.split-sum", c06.partition_volume)
+    for dev in concrete_devices(ctx):
+        ctx.reuse("C07.split-sum", c06.iteration_space, dev)
 
 
 def step_block(ctx, dev) -> None:
